@@ -15,7 +15,8 @@ GEN_MODULES: List[str] = []
 MANIFEST = {
     "design_ref": "§5 C18",
     "text": ("Lean theorem c18_history: judge (run ops) = true (+ clause theorems single_flight, failure_cached, shared_outcome, "
-             "cancelled_only_if_requested, never_raises, no_deadlock, no_orphan_marker, snapshots_ok): for EVERY sequence of environment operations (lookups of any locations, "
+             "cancelled_only_if_requested, never_raises, no_deadlock, no_orphan_marker, snapshots_ok; etree_characterised / etree_total / "
+             "description_never_asserts for the XML-tree -> dict conversion): for EVERY sequence of environment operations (lookups of any locations, "
              "responses released with any outcome, cancellation of any lookup at any point, uncache, single scheduler "
              "steps in any interleaving) the trace of the cache model is accepted by the monitor: a request is issued only "
              "when every earlier download of the location since its last uncache was abandoned by cancellation; a lookup "
@@ -25,8 +26,8 @@ MANIFEST = {
              "comparing events and snapshots after every operation; the same monitor judges the implementation's trace."),
     "note": ("Trusted: Lean kernel + standard axioms; the hand-stepped event loop (asyncio FIFO ready queue, Task.cancel "
              "semantics of CPython 3.12 are what is being modelled); the fake requester has exactly one await point; XML "
-             "text -> dict conversion is not in the Lean model: expected dictionaries come from the generator "
-             "(documents are rendered from known dictionaries) and are compared as values."),
+             "text -> element tree is the real parser's (the tree it built is sent to the driver); tree -> dict is modelled "
+             "in Lean and compared on every released document."),
     "technique": "Lean 4 proof (invariant over all operation sequences of an event-loop model) + model/implementation correspondence",
 }
 RULE = ("one case = one schedule: macro-operations {lookup loc0, lookup loc1, step, run-to-quiescence, release first "
